@@ -138,6 +138,25 @@ def check(pm: ProgramModel, ctx: Ctx) -> None:
                      "number-like"):
             validate(ctx, pm, writer, f"{P}-ONEENC", f"name:{cls_}", name_model(mb, NAME_CLASSES[cls_]),
                      f"feature named {NAME_CLASSES[cls_]!r}", fragment=(writer == "SPLOTWriter"))
+        from ..codec import export_interactions
+        groups: dict[str, list[Any]] = {}
+        plain_ops = [op_ for op_ in BINARY_LOGICAL if writer != "SPLOTWriter" or op_ not in ("XOR", "EQUIVALENCE")]
+        for grp_, key_, m_, what_ in export_interactions(mb, plain_ops):
+            sub = Ctx(ctx.prop, ctx.tier)
+            fam = key_.split(":")[0] if grp_ == "relatives" else key_.split("_")[0].split("-")[0] if grp_ == "polarity" else \
+                key_.split("-")[0]
+            fam = fam if fam != "not" else key_.split("_")[1]
+            ok_ = validate(sub, pm, writer, f"{P}-CTC", f"{grp_}:{fam}", m_, what_)
+            groups.setdefault(f"{grp_}:{fam}", []).append(None if ok_ else sub.obligations[-1])
+        for gkey, res in groups.items():                 # one obligation per family member: the first failing case is reported
+            bad_ = [r_ for r_ in res if r_ is not None]
+            if bad_:
+                ctx.obligations.append(bad_[0])
+            else:
+                ctx.ok(f"{P}-CTC", gkey, "", f"{len(res)} models in which a constraint meets the tree / another level of itself "
+                       f"denote the same configurations")
+        from ..codec import WriterOnly, writer_reuse_check
+        writer_reuse_check(WriterOnly(pm, ctx, writer, P), mb, "REUSE", op="REQUIRES", abstract=False)
         from ..codec import export_models
         for key_, m_, what_ in export_models(mb, [op_ for op_ in BINARY_LOGICAL if op_ not in ("XOR", "EQUIVALENCE")]):
             validate(ctx, pm, writer, f"{P}-COVER" if not m_._f["ctcs"] else f"{P}-CTC", f"large:{key_}", m_, what_)
